@@ -175,3 +175,37 @@ Fixpoint record_dones (done : Q) (env_dones : list Q) : list Q * Q :=
   | [] => ([], done)
   | nd :: rest => let '(ds, last) := record_dones nd rest in (done :: ds, last)
   end.
+
+(* ------------------------------------------------------------------------------------------ *)
+(* 5. the epoch / minibatch loop of learn()                                                    *)
+(* ------------------------------------------------------------------------------------------ *)
+(*   batch_idxs = np.arange(num_samples)
+     for epoch in range(update_epochs):
+         np.random.shuffle(batch_idxs)                         # in place, on the already shuffled array
+         for start in range(0, num_samples, batch_size):
+             minibatch_idxs = batch_idxs[start : start + batch_size]
+   The shuffle of epoch k is described by the list p_k with  new[i] = old[p_k[i]]. *)
+Fixpoint chunks_fuel (fuel B : nat) (l : list nat) : list (list nat) :=
+  match fuel with
+  | O => []
+  | S f => match l with [] => [] | _ => firstn B l :: chunks_fuel f B (skipn B l) end
+  end.
+Definition chunks (B : nat) (l : list nat) : list (list nat) := chunks_fuel (length l) B l.
+Definition apply_perm (p l : list nat) : list nat := map (fun i => nth i l 0%nat) p.
+Fixpoint epochs_idx (B : nat) (perms : list (list nat)) (idxs : list nat) : list (list (list nat)) :=
+  match perms with
+  | [] => []
+  | p :: ps => let idxs' := apply_perm p idxs in chunks B idxs' :: epochs_idx B ps idxs'
+  end.
+(* epoch -> minibatch -> row indices *)
+Definition learn_minibatch_idxs (N B : nat) (perms : list (list nat)) : list (list (list nat)) :=
+  epochs_idx B perms (seq 0 N).
+
+(* the minibatch body: the gathered advantages are normalised,
+     minibatch_advs = (minibatch_advs - minibatch_advs.mean()) / (minibatch_advs.std() + 1e-8),
+   i.e. shifted and scaled by two numbers that depend on the whole minibatch ([m], [s] abstract them; the model does
+   not compute a square root), and the value loss clips with the gathered old values.  What the loss pairs, row by row:
+   (observation, action, old log-prob, normalised advantage, return, old value). *)
+Definition norm_adv (m s : list Q -> Q) (l : list Q) : list Q := map (fun x => (x - m l) * s l) l.
+Definition minibatch_body (m s : list Q -> Q) (idx : list nat) (a b c : list Z) (d e f : list Q) : list row6 :=
+  combine6 (gather 0%Z idx a) (gather 0%Z idx b) (gather 0%Z idx c) (norm_adv m s (gather 0 idx d)) (gather 0 idx e) (gather 0 idx f).
